@@ -7,11 +7,16 @@ static inline void uctx_unbind_udp_socket(struct io_context *ios, void *sock, ep
 extern size_t g_urebind_calls; extern ep_t g_urebind_ep; extern void *g_urebind_sock;
 static inline void uctx_rebind_udp_socket(struct io_context *ios, void *sock, ep_t ep) { (void)ios; g_urebind_calls++; g_urebind_ep = ep; g_urebind_sock = sock; }
 #define UREG_GHOST g_unbind_calls, g_unbind_ep, g_unbind_sock, g_urebind_calls, g_urebind_ep, g_urebind_sock
+/* socket_base::wait_type_t { wait_read, wait_write, wait_error } */
+enum { WAIT_read = 0, WAIT_write = 1, WAIT_error = 2 };
+#define CB_udp_send_timer 0x7031   /* [this](error_code const& e) { ... } armed on m_send_timer by async_wait(wait_write) */
 #define U_BOOLS(self) (BOOL_OK((self)->m_open) && BOOL_OK((self)->m_non_blocking) && BOOL_OK((self)->m_dont_fragment) && BOOL_OK((self)->m_is_v4) && BOOL_OK((self)->m_recv_null_buffers))
 #define U_SLOTS(self) (FN_SLOT_OK((self)->m_send_handler) && FN_SLOT_OK((self)->m_wait_send_handler) && FN_SLOT_OK((self)->m_recv_handler) && FN_SLOT_OK((self)->m_wait_recv_handler))
 /* [C08.account] the byte account of the receive queue equals the payload bytes it holds */
 #define U_ACCOUNT(self) ((int64_t)(self)->m_queue_size == (self)->m_incoming_queue.bytes)
-#define INV_udp(self) (U_BOOLS(self) && U_SLOTS(self) && (self)->m_queue_size >= 0 && (self)->m_queue_size <= SZ_MAX && U_ACCOUNT(self) && PL_SHAPE((self)->m_incoming_queue) && \
+/* a pending receive holds the caller's (non-empty) buffer sequence */
+#define U_RBUF(self) ((self)->m_recv_handler != 0 ? ((self)->m_recv_buffer.n >= 1 && (self)->m_recv_buffer.n <= 64) : 1)
+#define INV_udp(self) (U_BOOLS(self) && U_SLOTS(self) && U_RBUF(self) && (self)->m_queue_size >= 0 && (self)->m_queue_size <= SZ_MAX && U_ACCOUNT(self) && PL_SHAPE((self)->m_incoming_queue) && \
    INV_hrtimer(&(self)->m_recv_timer) && INV_hrtimer(&(self)->m_send_timer) && EP_VALID((self)->m_bound_to))
 extern size_t G_psz0, G_ct0; extern int G_qs0;
 extern size_t G_len_enq; extern size_t g_urecv_calls;
